@@ -135,6 +135,15 @@ class Harness:
             self.mark("rcall", rid)
             txn = z.reader()
             self.mark("ropen", rid, frozenset(self.in_write))
+
+            def pinned(where):
+                ids = [v.id for v in z._versions]
+                if txn.version.id not in ids:
+                    sc.problem("reader-version-not-retained",
+                               "reader %d %s: its version %d is not among the retained versions %s"
+                               % (rid, where, txn.version.id, ids))
+
+            pinned("right after reader() returned")
             a = get_as(txn, "n1")
             if upoints >= 1:
                 sc.point()
@@ -142,6 +151,7 @@ class Harness:
             if upoints >= 2:
                 sc.point()
             b = get_as(txn, "n2")
+            pinned("before closing")
             txn.rollback()  # ends the read transaction
             # non-transactional single reads of the published map
             rds = z.get_rdataset("log", "TXT")
